@@ -522,9 +522,26 @@ def _abs_tenmat_init(it, pos, kw, self_val):
     args = dict(zip(names, pos))
     args.update({k: v for k, v in kw.items() if k in names})
     data, rd, cd, ts = (args.get(n_) for n_ in names)
+    ctx = it.ctx
+    if isinstance(ts, Arr) and (rd is None) != (cd is None) and isinstance(rd if cd is None else cd, Arr):
+        # one mode list omitted: the constructor takes the remaining modes in ascending order (gather_wrap_dims)
+        given = rd if cd is None else cd
+        Nn_, Lg = T.tz(ts.shape[0]), T.tz(given.shape[0])
+        Lo = T.fresh_int("Lrest")
+        rest = Arr.fresh("restdims", (Lo,), "int")
+        q1, q2 = T.fresh_int("q"), T.fresh_int("q")
+        ro, gv = (lambda x: T.tz(rest.fn(x))), (lambda x: T.tz(given.fn(x)))
+        wit = T.fresh_fun("restpos", z3.IntSort(), z3.IntSort())
+        ctx.assume(z3.And(Lo >= 0, Lo + Lg == Nn_), trusted="numpy:setdiff1d (remaining modes, ascending)")
+        ctx.assume(T.ForAll([q1], z3.Implies(z3.And(0 <= q1, q1 < Lo), z3.And(0 <= ro(q1), ro(q1) < Nn_)), [ro(q1)]))
+        ctx.assume(T.ForAll([q1, q2], z3.Implies(z3.And(0 <= q1, q1 < q2, q2 < Lo), ro(q1) < ro(q2)), [[ro(q1), ro(q2)]]))
+        ctx.assume(T.ForAll([q1, q2], z3.Implies(z3.And(0 <= q1, q1 < Lo, 0 <= q2, q2 < Lg), ro(q1) != gv(q2)), [[ro(q1), gv(q2)]]))
+        if cd is None:
+            cd = rest
+        else:
+            rd = rest
     if not (isinstance(data, Arr) and data.ndim == 2 and isinstance(rd, Arr) and isinstance(cd, Arr) and isinstance(ts, Arr)):
         raise PathAbort("tenmat() call site: unsupported arguments", it.ctx.cur_line)
-    ctx = it.ctx
     from pyvc.contract import S as _S
     S_ = _S(ctx, it, at_call_site=True)
     ctx.oblige(_is_partition(S_, rd, cd, T.tz(ts.shape[0])), "tenmat():mode-lists-partition-the-modes", kind="requires")
